@@ -22,7 +22,7 @@ from .c09 import oracle, pairs
 PID = "C18"
 VALUES = (None, 0, "")
 DECOS = ("plain", "guarded-parallel", "internal", "internal-actions", "multi-event",
-         "event-objects", "attribute-events", "property-guards")
+         "event-objects", "attribute-events", "property-guards", "any-guarded")
 
 
 def strip(x):
@@ -70,7 +70,9 @@ def make(n, edges, init, finals, deco, asyn=False, ids="s"):
             exp_edges[(SID[a], SID[b], "e", "g1, g2, !g3")] += 1
         elif deco in ("internal", "internal-actions"):
             if a == b:
-                st[a].to(st[b], event=f"i{k}", internal=True, on="act")
+                # (every second internal transition has no action of its own: an event that
+                # is accepted and deliberately ignored is part of the machine all the same)
+                st[a].to(st[b], event=f"i{k}", internal=True, **({"on": "act"} if k % 2 else {}))
                 internal[a].append(f"i{k}")
                 # keep the state non-trapping for validation purposes: also an external loop
                 st[a].to(st[b], event="e")
@@ -101,9 +103,19 @@ def make(n, edges, init, finals, deco, asyn=False, ids="s"):
             else:
                 ns[f"ev{k}"] = st[a].to(st[b])
                 exp_edges[(SID[a], SID[b], f"ev{k}", "")] += 1
+        elif deco == "any-guarded":
+            st[a].to(st[b], event="e")
+            exp_edges[(SID[a], SID[b], "e", "")] += 1
         elif deco == "multi-event":
             st[a].to(st[b], event=["e", "f"] if k % 2 else "e f g")
             exp_edges[(SID[a], SID[b], "e f" if k % 2 else "e f g", "")] += 1
+    if deco == "any-guarded":
+        # one guarded event out of every non-final state, declared with from_.any()
+        t = (init + 1) % n
+        ns["anyev"] = st[t].from_.any(cond="g1", unless=["g2", "g3"])
+        for a in range(n):
+            if a not in finals:
+                exp_edges[(SID[a], SID[t], "anyev", "g1, !g2, !g3")] += 1
     for nm in ("g1", "g2", "g3"):
         ns[nm] = True
     if asyn:
